@@ -73,6 +73,7 @@ BUILTINS = {
 class Machine:
     def __init__(self, rules, text, args, budget=200000):
         self.rules = rules          # name -> node (grammar struct) ; 'main' is entry
+        self.scopes = [rules]       # lexical scopes of nested grammars, innermost last
         self.text = text
         self.args = args
         self.budget = budget
@@ -370,7 +371,23 @@ class Machine:
                 chunk_start = p
             return end, cur_st
         if k == "ref":
-            return self.run(self.rules[node[1]], pos, st, end)
+            # lexical scoping: the rule body runs in the scope that defines it, not in the scope of the reference
+            for i in range(len(self.scopes) - 1, -1, -1):
+                if node[1] in self.scopes[i]:
+                    saved = self.scopes
+                    self.scopes = saved[:i + 1]
+                    try:
+                        return self.run(self.scopes[i][node[1]], pos, st, end)
+                    finally:
+                        self.scopes = saved
+            raise ValueError("unbound rule " + node[1])
+        if k == "grammar":
+            saved = self.scopes
+            self.scopes = saved + [node[1]]
+            try:
+                return self.run(node[1]["main"], pos, st, end)
+            finally:
+                self.scopes = saved
         raise ValueError("unknown node " + k)
 
 
@@ -496,6 +513,8 @@ def emit_node(n):
         return "(til %s %s)" % (emit_node(n[1]), emit_node(n[2]))
     if k == "split":
         return "(split %s %s)" % (emit_node(n[1]), emit_node(n[2]))
+    if k == "grammar":
+        return "{" + " ".join(":%s %s" % (kk, emit_node(v)) for kk, v in n[1].items()) + "}"
     if k == "ref":
         return ":" + n[1]
     raise ValueError(k)
@@ -707,6 +726,17 @@ class Gen:
         r = self.rng
         if r.random() < 0.75:
             return {"main": self.pat(depth)}
+        if r.random() < 0.3:
+            # nested grammar that rebinds a name used by an outer rule which the inner grammar references: scoping must be lexical
+            self.features.add("grammar-nested")
+            self.rule_names = []
+            px, py = self.pat(max(depth - 2, 0)), self.pat(max(depth - 2, 0))
+            outer_c = r.choice([("seq", [("ref", "r1"), ("ref", "r1")]), ("choice", [("seq", [("ref", "r1"), ("lit", b"!")]), ("ref", "r1")]), ("capture", ("ref", "r1"), None)])
+            inner_main = r.choice([("seq", [("ref", "r1"), ("ref", "r2")]), ("seq", [("ref", "r2"), ("ref", "r1")]), ("choice", [("ref", "r2"), ("ref", "r1")])])
+            inner = {"main": inner_main, "r1": py}
+            lead = self.pat(max(depth - 2, 0)) if r.random() < 0.4 else None
+            main = ("seq", [lead, ("grammar", inner)]) if lead else ("grammar", inner)
+            return {"main": main, "r1": px, "r2": outer_c}
         # table grammar with guarded recursion
         self.features.add("grammar-table")
         names = ["r1", "r2"][:r.choice([1, 2])]
